@@ -45,6 +45,6 @@ Report ==
 BadState == {n \in {"C14_Name", "C14_EnvWins", "C14_InvalidFailsBuild"} :
                 CASE n = "C14_Name" -> ~C14_Name [] n = "C14_EnvWins" -> ~C14_EnvWins
                   [] n = "C14_InvalidFailsBuild" -> ~C14_InvalidFailsBuild}
-ReportState == l > 1 => PrintT(<<"TRACE", ToJson([t |-> tid, l |-> l - 1, bo |-> {}, bi |-> BadState])>>)
+ReportState == l > 1 => PrintT(<<"TRACE", ToJson([t |-> tid, l |-> l - 1, bo |-> {}, bi |-> BadState, st |-> TRUE])>>)
 TraceView == <<sch, cfg, assigned, tid, l>>
 ====
